@@ -216,6 +216,10 @@ fn main() {
         println!("FNTIE-UNAVAILABLE BatchFn {}", w.replace('\n', " "));
         let _ = std::fs::remove_file(g.dir.join("BatchFn.lean"));
     }
+    if let Err(w) = gen_topic_fn(&repo, &mut g) {
+        println!("FNTIE-UNAVAILABLE TopicFn {}", w.replace('\n', " "));
+        let _ = std::fs::remove_file(g.dir.join("TopicFn.lean"));
+    }
     println!("generated: {}", g.written.join(" "));
     if failed { std::process::exit(3); }
 }
@@ -1594,11 +1598,15 @@ struct FnTr {
     /// loops found on the way, printed as definitions of their own in front of the function
     loops: std::cell::RefCell<Vec<String>>,
     fn_name: std::cell::RefCell<String>,
+    /// string constants mentioned (printed as code-point lists) and `STATIC.method(..)` calls taken as parameters
+    str_consts: std::cell::RefCell<BTreeMap<String, String>>,
+    static_calls: std::cell::RefCell<BTreeMap<String, String>>,
 }
 
 impl FnTr {
     fn lean_ty(&self, t: &str) -> FR<String> {
         if int_bits(t).is_some() || t == "Duration" { return Ok("Nat".into()); }
+        if t == "String" || t == "&str" { return Ok("List Nat".into()); }
         if t.starts_with("Option<") { return Ok(format!("Option {}", self.lean_ty(&opt_inner(t))?)); }
         if self.enums.contains_key(t) || self.structs.contains_key(t) { return Ok(t.to_string()); }
         Err(format!("type {t} is outside the translated subset"))
@@ -1641,6 +1649,13 @@ impl FnTr {
                 if segs.len() == 1 {
                     let n = &segs[0];
                     if let Some(t) = env.get(n) { return Ok((n.clone(), t.clone())); }
+                    if let Some(Expr::Lit(l)) = self.consts.get(n) {
+                        if let syn::Lit::Str(st) = &l.lit {
+                            let pts: Vec<String> = st.value().chars().map(|c| (c as u32).to_string()).collect();
+                            self.str_consts.borrow_mut().insert(n.clone(), format!("[{}]", pts.join(", ")));
+                            return Ok((n.clone(), "&str".into()));
+                        }
+                    }
                     if let Some(c) = self.consts.get(n) { return Ok((eval_int(c, &self.consts)?.to_string(), "?".into())); }
                     if n == "None" { return Ok(("none".into(), "Option<?>".into())); }
                     return Err(format!("unknown name {n}"));
@@ -1677,6 +1692,16 @@ impl FnTr {
                 let (s, t) = self.expr(&u.expr, env)?;
                 match u.op { syn::UnOp::Not(_) if t == "bool" => Ok((format!("(¬ {s})"), t)), _ => Err("unary operator".into()) }
             }
+            Expr::MethodCall(m) if matches!(&*m.receiver, Expr::Path(p) if p.path.get_ident().map(|i| { let n = i.to_string(); n.chars().all(|c| c.is_ascii_uppercase() || c == '_' || c.is_ascii_digit()) && !env.contains_key(&n) && matches!(self.consts.get(&n), Some(Expr::Macro(_))) }).unwrap_or(false)) => {
+                // a method of a lazily built static (a compiled regex): a parameter of the generated definition
+                let recv = match &*m.receiver { Expr::Path(p) => p.path.get_ident().unwrap().to_string(), _ => unreachable!() };
+                let args: FR<Vec<(String, String)>> = m.args.iter().map(|a| self.expr(a, env)).collect();
+                let args = args?;
+                let lname = format!("{recv}_{}", m.method);
+                let ret = match m.method.to_string().as_str() { "is_match" => "bool", other => return Err(format!("method {other} of a static")) };
+                self.static_calls.borrow_mut().insert(lname.clone(), "List Nat → Bool".into());
+                Ok((format!("({lname} {})", args.iter().map(|a| a.0.clone()).collect::<Vec<_>>().join(" ")), ret.into()))
+            }
             Expr::MethodCall(m) => {
                 let (r, tr) = self.expr(&m.receiver, env)?;
                 let args: FR<Vec<(String, String)>> = m.args.iter().map(|a| self.expr(a, env)).collect();
@@ -1697,6 +1722,7 @@ impl FnTr {
                     ("min", [(a, _)]) => Ok((format!("(Nat.min {r} {a})"), tr)),
                     ("max", [(a, _)]) => Ok((format!("(Nat.max {r} {a})"), tr)),
                     ("is_zero", []) => Ok((format!("({r} = 0)"), "bool".into())),
+                    ("starts_with", [(a, _)]) if tr == "String" || tr == "&str" => Ok((format!("(Rs.startsWith {r} {a})"), "bool".into())),
                     ("is_none", []) => Ok((format!("({r} = none)"), "bool".into())),
                     _ => Err(format!("method {name}")),
                 }
@@ -2107,7 +2133,7 @@ fn collect_local_consts(b: &syn::Block, m: &mut BTreeMap<String, Expr>) {
 fn gen_backoff_fn(repo: &Path, g: &mut Gen) -> FR<()> {
     let rel = "client/src/keep_alive/backoff_strategy.rs";
     let src = Src::load(repo, rel).map_err(|s| s.0)?;
-    let mut tr = FnTr { consts: src.consts(), structs: BTreeMap::new(), enums: BTreeMap::new(), fns: BTreeMap::new(), self_ty: None, self_reads: Default::default(), buf: None, externs: BTreeMap::new(), extern_methods: BTreeMap::new(), tail_k: Default::default(), loops: Default::default(), fn_name: Default::default() };
+    let mut tr = FnTr { consts: src.consts(), structs: BTreeMap::new(), enums: BTreeMap::new(), fns: BTreeMap::new(), self_ty: None, self_reads: Default::default(), buf: None, externs: BTreeMap::new(), extern_methods: BTreeMap::new(), tail_k: Default::default(), loops: Default::default(), fn_name: Default::default(), str_consts: Default::default(), static_calls: Default::default() };
     let mut free: BTreeMap<String, syn::ItemFn> = BTreeMap::new();
     for it in &src.ast.items {
         match it {
@@ -2179,7 +2205,7 @@ fn gen_codec_fn(repo: &Path, g: &mut Gen) -> FR<()> {
     let rel = "protocol/src/codec.rs";
     let src = Src::load(repo, rel).map_err(|s| s.0)?;
     let mut tr = FnTr { consts: src.consts(), structs: BTreeMap::new(), enums: BTreeMap::new(), fns: BTreeMap::new(), self_ty: None,
-                        self_reads: Default::default(), buf: Some("src".into()), externs: BTreeMap::new(), extern_methods: BTreeMap::new(), tail_k: Default::default(), loops: Default::default(), fn_name: Default::default() };
+                        self_reads: Default::default(), buf: Some("src".into()), externs: BTreeMap::new(), extern_methods: BTreeMap::new(), tail_k: Default::default(), loops: Default::default(), fn_name: Default::default(), str_consts: Default::default(), static_calls: Default::default() };
     tr.externs.insert("Frame::try_from".into(), "frameTryFrom".into());
     let mut out = String::new();
     // free function validate_payload_length(length: u64) -> Result<(), _>
@@ -2243,7 +2269,7 @@ fn gen_batch_fn(repo: &Path, g: &mut Gen) -> FR<()> {
     let src = Src::load(repo, rel).map_err(|s| s.0)?;
     let mut tr = FnTr { consts: src.consts(), structs: BTreeMap::new(), enums: BTreeMap::new(), fns: BTreeMap::new(), self_ty: None,
                         self_reads: Default::default(), buf: None, externs: BTreeMap::new(), extern_methods: BTreeMap::new(),
-                        tail_k: Default::default(), loops: Default::default(), fn_name: Default::default() };
+                        tail_k: Default::default(), loops: Default::default(), fn_name: Default::default(), str_consts: Default::default(), static_calls: Default::default() };
     let free: BTreeMap<String, &syn::ItemFn> = src.ast.items.iter().filter_map(|it| match it { Item::Fn(f) => Some((f.sig.ident.to_string(), f)), _ => None }).collect();
     let mut out = String::new();
     // helpers that read from the buffer first (they are called by the decoder), then the decoder
@@ -2272,5 +2298,32 @@ fn gen_batch_fn(repo: &Path, g: &mut Gen) -> FR<()> {
         tr.fns.insert(fname.to_string(), (vec![(bufname.clone(), "Bytes".into())], rty.into()));
     }
     g.emit_with_imports("BatchFn", &["SeliumModel.Rs"], &[rel], &format!("open Selium\n\n{out}"));
+    Ok(())
+}
+
+fn gen_topic_fn(repo: &Path, g: &mut Gen) -> FR<()> {
+    let rel = "protocol/src/topic_name.rs";
+    let src = Src::load(repo, rel).map_err(|s| s.0)?;
+    let mut tr = FnTr { consts: src.consts(), structs: BTreeMap::new(), enums: BTreeMap::new(), fns: BTreeMap::new(), self_ty: Some("TopicName".into()),
+                        self_reads: Default::default(), buf: None, externs: BTreeMap::new(), extern_methods: BTreeMap::new(),
+                        tail_k: Default::default(), loops: Default::default(), fn_name: Default::default(), str_consts: Default::default(), static_calls: Default::default() };
+    for it in &src.ast.items {
+        if let Item::Struct(st) = it {
+            let mut fs = vec![];
+            if let Fields::Named(n) = &st.fields { for f in &n.named { fs.push((f.ident.as_ref().unwrap().to_string(), ty_str(&f.ty))); } }
+            tr.structs.insert(st.ident.to_string(), fs);
+        }
+    }
+    let iv = find_method(&src.ast, "TopicName", "is_valid", None).ok_or("`impl TopicName` has no fn is_valid")?;
+    match &iv.sig.output { syn::ReturnType::Type(_, t) if ty_str(t) == "bool" => {}, _ => return Err("is_valid does not return bool".into()) }
+    let (body, _) = tr.stmts(&iv.block.stmts, &FEnv::new(), &|v| format!("decide {v}"))?;
+    let reads = tr.self_reads.borrow().clone();
+    let mut out = String::new();
+    for (n, v) in tr.str_consts.borrow().iter() { let _ = writeln!(out, "/-- `const {n}` (code points) -/\ndef {n} : List Nat := {v}\n"); }
+    let mut ps: Vec<String> = tr.static_calls.borrow().iter().map(|(n, t)| format!("({n} : {t})")).collect();
+    for (n, t) in reads.iter() { ps.push(format!("({n} : {})", tr.lean_ty(t)?)); }
+    let _ = writeln!(out, "/-- `TopicName::is_valid(&self)`; the compiled regexes' methods are parameters\n    ({}) -/\ndef is_valid {} : Bool :=\n  {body}",
+        reads.iter().map(|(n, t)| format!("{n} : {t}")).collect::<Vec<_>>().join(", "), ps.join(" "));
+    g.emit_with_imports("TopicFn", &["SeliumModel.Rs"], &[rel], &format!("open Selium\n\n{out}"));
     Ok(())
 }
